@@ -1480,42 +1480,26 @@ PIP_Decision_Node::solve(const PIP_Problem& pip,
     return nullptr;
   }
 
-  if (has_false_child && false_child == nullptr) {
-    // False child has become unfeasible: merge this node's artificials with
-    // the true child, while removing the local parameter constraints, which
-    // are no longer discriminative.
-#ifdef NOISY_PIP_TREE_STRUCTURE
-    indent_and_print(std::cerr, indent_level,
-                     "=== DECISION: ELSE BRANCH NOW UNFEASIBLE\n");
-    indent_and_print(std::cerr, indent_level,
-                     "==> merge then branch with parent.\n");
-#endif
-    PIP_Tree_Node* const node = true_child;
-    node->parent_merge();
-    node->set_parent(parent());
-    true_child = nullptr;
-    delete this;
-    PPL_ASSERT(node->OK());
-    return node;
-  }
-  else if (has_true_child && true_child == nullptr) {
-    // True child has become unfeasible: merge this node's artificials
-    // with the false child.
+  // NOTE: when one of the two children has become unfeasible, the test
+  // of this node is still discriminative: the solution of the other
+  // child only holds when the test selects it. The test is dropped below
+  // if (and only if) it is redundant with respect to the context.
+  if (has_true_child && true_child == nullptr) {
+    // True child has become unfeasible: turn `if c then T else F'
+    // into `if not c then F else _|_'.
 #ifdef NOISY_PIP_TREE_STRUCTURE
     indent_and_print(std::cerr, indent_level,
                      "=== DECISION: THEN BRANCH NOW UNFEASIBLE\n");
-    indent_and_print(std::cerr, indent_level,
-                     "==> merge else branch with parent.\n");
 #endif
-    PIP_Tree_Node* const node = false_child;
-    node->parent_merge();
-    node->set_parent(parent());
+    // Here context_true is context_false: its last row is `not c'.
+    const Row& not_c = context_true[context_true.num_rows() - 1];
+    Constraint_System empty_cs;
+    swap(constraints_, empty_cs);
+    add_constraint(not_c, all_params);
+    true_child = false_child;
     false_child = nullptr;
-    delete this;
-    PPL_ASSERT(node->OK());
-    return node;
   }
-  else if (check_feasible_context) {
+  if (check_feasible_context) {
     // Test all constraints for redundancy with the context, and eliminate
     // them if not necessary.
     Constraint_System cs;
